@@ -350,7 +350,7 @@ func TestChaos(t *testing.T) {
 }
 
 func validProgram(rt_ *rapid.T) (*m.Design, *dt.Program) {
-	prof := rapid.SampledFrom([]gen.Profile{gen.Routes(), gen.Routes(), gen.Views(), gen.Security(), gen.Response(), gen.GRPCProfile()}).Draw(rt_, "profile")
+	prof := rapid.SampledFrom([]gen.Profile{gen.Routes(), gen.Routes(), gen.Views(), gen.Security(), gen.Response(), gen.GRPCProfile(), gen.Streams()}).Draw(rt_, "profile")
 	prof.Avoid = gen.OpenQuirks()
 	var d *m.Design
 	if prof.Name == "grpc" {
